@@ -9,6 +9,7 @@ import MimicProofs.HandlersCode
 import MimicProofs.CommandLoop
 import MimicProofs.Monotone
 import MimicProofs.Frame
+import MimicProofs.ChangeUser
 /-!
 # C03 — Every command gets exactly one complete, well-formed response (lockstep)
 
@@ -723,6 +724,26 @@ theorem code_capabilities_constant (E : Mimic.Py.Env S) (cp : S → Nat) (pc : N
     (command_loop E cp pc coldef parse app ur fls fcd other err af c ps).1.status_flags = c.status_flags ∧
     deprecate_eof (command_loop E cp pc coldef parse app ur fls fcd other err af c ps).1 = deprecate_eof c :=
   ⟨(loop_keeps E cp pc coldef parse app ur fls fcd other err af hother haf c ps).1, (loop_keeps E cp pc coldef parse app ur fls fcd other err af hother haf c ps).2, loop_deprecate_eof E cp pc coldef parse app ur fls fcd other err af hother haf c ps⟩
+
+open MimicProofs.ChangeUser MimicProofs.Monotone MimicProofs.Frame in
+/-- **The conversation theorems with `handle_change_user` (generated) in the loop**: what is assumed is now about `_change_user`
+    alone — that however it ends it has only extended the effects and kept capabilities and status flags.  Then for every
+    conversation, COM_CHANGE_USER packets included, nothing written is retracted and the capabilities are those of the handshake. -/
+theorem code_conversations_with_change_user (E : Mimic.Py.Env S) (cp : S → Nat) (pc : Nat → Mimic.Py.Bytes) (coldef : Nat → Nat → Mimic.Py.Bytes)
+    (parse : Connection S → Mimic.Py.Bytes → Option (ComStmtExecute S)) (app : S → Option (ResultSet S))
+    (ur : S → Bool) (fls : Mimic.Extracted.ParsersCode.ComFieldList S → S) (fcd : Nat → S → Mimic.Py.Bytes → Mimic.Py.Bytes)
+    (err : Connection S → Mimic.Py.Bytes) (cu : Connection S → Mimic.Py.Bytes → CUOut S) (cerr : Connection S → Mimic.Py.Bytes)
+    (hext : ∀ c d, c.out <+: (cu c d).state.out) (hsame : ∀ c d, Same c (cu c d).state)
+    (c : Connection S) (ps qs : List Mimic.Py.Bytes) :
+    (loopCU E cp pc coldef parse app ur fls fcd err cu cerr c ps).1.out <+: (loopCU E cp pc coldef parse app ur fls fcd err cu cerr c (ps ++ qs)).1.out ∧
+    (loopCU E cp pc coldef parse app ur fls fcd err cu cerr c ps).1.capabilities = c.capabilities ∧
+    (loopCU E cp pc coldef parse app ur fls fcd err cu cerr c ps).1.status_flags = c.status_flags :=
+  ⟨loop_prefix E cp pc coldef parse app ur fls fcd (change_user_other cu cerr) err (change_user_auth_failed cu cerr)
+      (other_ext cu cerr hext) (auth_failed_ext cu cerr hext) c ps qs,
+   (loop_keeps E cp pc coldef parse app ur fls fcd (change_user_other cu cerr) err (change_user_auth_failed cu cerr)
+      (other_keeps cu cerr hsame) (auth_failed_keeps cu cerr hsame) c ps).1,
+   (loop_keeps E cp pc coldef parse app ur fls fcd (change_user_other cu cerr) err (change_user_auth_failed cu cerr)
+      (other_keeps cu cerr hsame) (auth_failed_keeps cu cerr hsame) c ps).2⟩
 
 /-- non-vacuity: a conversation of an empty packet, an unsupported byte and a COM_QUIT followed by a pipelined ping -/
 example : MimicProofs.CommandLoop.served [[], [0x63], [1], [14]] = [[], [0x63], [1]] := by decide
